@@ -23,6 +23,7 @@ type Spec struct {
 	Mode     string   `json:"mode"` // run | replay | shrink
 	Vector   []uint32 `json:"vector,omitempty"`
 	Rule     string   `json:"rule,omitempty"`
+	Sig      string   `json:"sig,omitempty"`
 	Out      string   `json:"out"`
 	Samples  int      `json:"samples"`
 	Budget   float64  `json:"budget_s"` // wall-clock budget for this worker (0 = none)
@@ -42,6 +43,7 @@ type Result struct {
 	NonTriv  bool                   `json:"nontrivial,omitempty"`
 	Info     map[string]interface{} `json:"info,omitempty"`
 	Events   []string               `json:"events,omitempty"`
+	Head     []string               `json:"head,omitempty"`
 	Vector   []uint32               `json:"vector,omitempty"`
 	Leaked   int                    `json:"leaked,omitempty"`
 	Hung     bool                   `json:"hung,omitempty"`
@@ -80,6 +82,7 @@ func oneRun(t *testing.T, spec *Spec, idx int, vec []uint32, keepEvents bool) *R
 	if keepEvents || r.Viol != nil {
 		res.Info = r.Info
 		res.Events = r.Events
+		res.Head = r.Head
 		res.Vector = r.Ch.Rec
 		if spec.Verbose {
 			res.LogLines = r.hook.lines
@@ -163,7 +166,7 @@ func shrink(t *testing.T, spec *Spec, emit func(*Result)) {
 			emit(res)
 			os.Exit(3)
 		}
-		return res, res.Viol != nil && res.Viol.Rule == spec.Rule
+		return res, res.Viol != nil && res.Viol.Rule == spec.Rule && res.Viol.Sig == spec.Sig
 	}
 	bestRes, ok := fails(best)
 	if !ok {
